@@ -131,7 +131,7 @@ func (r *Runner) atomicFuncModel(st *State, f *Frame, key string, args []Val, re
 		r.guardCheck(st, p, true, pos)
 		v := st.load(p)
 		nv := Val{T: t, C: []Term{st.define("aadd", r.arith(st, Add(v.C[0], args[1].C[0]), t, pos))}}
-		st.store(p, nv)
+		r.storeChecked(st, p, nv, pos)
 		if res != nil {
 			f.regs[res] = Val{T: res.Type(), C: nv.C}
 		}
@@ -143,7 +143,7 @@ func (r *Runner) atomicFuncModel(st *State, f *Frame, key string, args []Val, re
 		}
 	case len(op) > 5 && op[:5] == "Store":
 		r.guardCheck(st, p, true, pos)
-		st.store(p, Val{T: t, C: args[1].C})
+		r.storeChecked(st, p, Val{T: t, C: args[1].C}, pos)
 	default:
 		return false
 	}
@@ -168,4 +168,69 @@ func resultCell(fn *ssa.Function, i int) *ssa.Alloc {
 		}
 	}
 	return nil
+}
+
+// storeChecked performs a store and, when the target object declares wait conditions
+// (`waitcond M [l] expr`), generates the monitor obligations that exclude lost wake-ups:
+//   - a store made WITHOUT the mutex must not be able to turn the wait condition from true to false
+//     (a waiter that has evaluated the condition but not yet parked would sleep forever);
+//   - a store made WITH the mutex that falsifies it must be followed by Broadcast/Signal before Unlock.
+func (r *Runner) storeChecked(st *State, p *Place, v Val, pos token.Pos) {
+	ts := r.typeSpecOf(p.Root)
+	if ts == nil || len(ts.WaitCond) == 0 || len(p.Path) == 0 || p.Kind == PCell || r.curSpec == nil {
+		st.store(p, v)
+		return
+	}
+	stt, ok := p.Root.Underlying().(*types.Struct)
+	if !ok {
+		st.store(p, v)
+		return
+	}
+	owner := *p
+	owner.Path = nil
+	owner.HasArr = false
+	self := Val{T: types.NewPointer(p.Root), C: []Term{r.interiorID(st, &owner)}, P: &owner}
+	type wc struct {
+		mu  string
+		c   Clause
+		old Term
+	}
+	var conds []wc
+	for mu, cs := range ts.WaitCond {
+		for _, c := range cs {
+			env := r.newEnv(st, r.pkgByPath(ts.Pkg))
+			env.vars["self"] = self
+			conds = append(conds, wc{mu, c, env.EvalBool(c.E, st)})
+		}
+	}
+	st.store(p, v)
+	for _, w := range conds {
+		env := r.newEnv(st, r.pkgByPath(ts.Pkg))
+		env.vars["self"] = self
+		now := env.EvalBool(w.c.E, st)
+		if now.S == w.old.S {
+			continue // the store does not touch what the condition reads
+		}
+		falsified := And(w.old, Not(now))
+		mi := -1
+		for i := 0; i < stt.NumFields(); i++ {
+			if stt.Field(i).Name() == w.mu {
+				mi = i
+			}
+		}
+		if mi < 0 {
+			continue
+		}
+		lk := owner.withField(mi)
+		if mode, held := st.held[lockKey(lk)]; held && mode == "w" {
+			k := "needsignal:" + lockKey(lk)
+			if prev, ok := st.ghost[k]; ok {
+				st.ghost[k] = Or(prev, falsified)
+			} else {
+				st.ghost[k] = falsified
+			}
+		} else {
+			r.oblige(st, "lostwakeup", shortType(p.Root)+"."+w.c.Label, Not(falsified), pos)
+		}
+	}
 }
